@@ -1,6 +1,9 @@
 package schema
 
-import "regexp"
+import (
+	"fmt"
+	"regexp"
+)
 
 var unitsProperty = NewPropertySchema(
 	NewRefSchema("Units", nil),
@@ -1322,12 +1325,25 @@ func UnserializeScope(data any) (*ScopeSchema, error) {
 }
 
 // UnserializeSchema unserializes an entire schema definition from raw data.
-func UnserializeSchema(data any) (*SchemaSchema, error) {
+func UnserializeSchema(data any) (result *SchemaSchema, err error) {
+	// The data typically comes from a plugin. Linking it panics on inconsistencies such as references to objects
+	// that do not exist or one-of members that contradict the inlining flag; report those as errors.
+	defer func() {
+		if r := recover(); r != nil {
+			result = nil
+			err = fmt.Errorf("invalid schema: %v", r)
+		}
+	}()
 	s, err := schemaSchema.Unserialize(data)
 	if err != nil {
 		return nil, err
 	}
-	result := s.(*SchemaSchema)
+	result = s.(*SchemaSchema)
 	result.applyNamespace()
+	// Make sure that the schema can be used: every reference is linked, every scope has its root object and
+	// every default value can be decoded. Otherwise the first use of the schema would panic.
+	if err := result.validateReferences(); err != nil {
+		return nil, fmt.Errorf("invalid schema: %w", err)
+	}
 	return result, nil
 }
